@@ -427,6 +427,18 @@ class Walk:
             hi = hi + Rat.const(1)
         return lo, hi, lv
 
+    def only_assigned(self, body, v):
+        """every change of v in body is a fresh assignment (declaration with initialiser or `v = e` without v in e); never advanced"""
+        for st in _all(body):
+            if isinstance(st, C.CAssign) and isinstance(st.target, ast.Name) and st.target.id == v:
+                if st.op != '=' or any(isinstance(n, ast.Name) and n.id == v for n in ast.walk(st.value)):
+                    return False
+            for e in _stmt_exprs(st):
+                for n in ast.walk(e):
+                    if _is_call(n, ('postinc', 'postdec')) and isinstance(n.args[0], ast.Name) and n.args[0].id == v:
+                        return False
+        return True
+
     def local_to_iteration(self, body, v):
         """the first statement of the body that mentions v assigns it afresh, at the top level of the body"""
         for st in body:
@@ -514,7 +526,7 @@ class Walk:
             inner = dict(env)
             after = {}
             for v in sorted(mod):
-                if self.local_to_iteration(st.body, v):
+                if self.local_to_iteration(st.body, v) or self.only_assigned(st.body, v):
                     inner[v] = None
                     after[v] = None
                     continue
@@ -533,11 +545,14 @@ class Walk:
             if not (isinstance(c, ast.Compare) and len(c.ops) == 1 and isinstance(c.ops[0], (ast.Lt, ast.NotEq)) and isinstance(c.left, ast.Name) and c.left.id in self.tracked):
                 raise Unsupported('while loop of line %d is not a counted walk' % st.line)
             v = c.left.id
-            mod = self.modified_in(st.body)
+            steps = list(getattr(st, 'steps', []) or [])
+            mod = self.modified_in(st.body) | self.modified_in(steps)
             start = env.get(v)
             if start is None:
                 raise Unsupported('%s has no single value at the while loop of line %d' % (v, st.line))
-            d = self.delta(st.body, v, env, mod - {v})
+            if steps and any(isinstance(x, C.CJump) and x.kind == 'continue' for x in _all(st.body)) and self.modified_in(st.body):
+                raise Unsupported('the loop of line %d advances a pointer or counter in its body and uses continue' % st.line)
+            d = self.delta(st.body + steps, v, env, mod - {v})
             if d is None or not d.equals(Rat.const(1)):
                 raise Unsupported('the while loop of line %d does not advance %s by one per iteration' % (st.line, v))
             if start[0] == 'ptr':
@@ -555,11 +570,11 @@ class Walk:
             inner = dict(env)
             after = {}
             for w in sorted(mod):
-                if self.local_to_iteration(st.body, w):
+                if self.local_to_iteration(st.body, w) or (self.only_assigned(st.body + steps, w) and w != v):
                     inner[w] = None
                     after[w] = None
                     continue
-                dw = self.delta(st.body, w, env, mod - {w})
+                dw = self.delta(st.body + steps, w, env, mod - {w})
                 sw = env.get(w)
                 if dw is None or sw is None:
                     raise Unsupported('%s is not advanced by the same amount in every iteration of the loop of line %d' % (w, st.line))
@@ -567,6 +582,7 @@ class Walk:
                 inner[w] = (sw[0], sw[1] + k * dw) if sw[0] == 'int' else ('ptr', sw[1], sw[2] + k * dw)
                 after[w] = (sw[0], sw[1] + trip * dw) if sw[0] == 'int' else ('ptr', sw[1], sw[2] + trip * dw)
             body = self.block(st.body, inner, loops + [st.body])
+            self.block(steps, inner, loops)          # (their values are already in the closed forms)
             env.update(after)
             loop = C.CFor(C.CAssign(ast.Name(id=lv, ctx=ast.Load()), '=', ast.Constant(value=0), st.line),
                           ast.Compare(left=ast.Name(id=lv, ctx=ast.Load()), ops=[ast.Lt()], comparators=[rat_to_ast(trip)]),
